@@ -154,6 +154,9 @@ def c01(ctx, api):
     acc.add('GenTSweep: 69 template families (document, expression and expected value with REP / IDX / NUM holes) instantiated for every n = 0..%d: '
             'a 2/3/4-byte character after n letters under 17 string operations, n distinct variables / fields / arguments / hash keys, '
             'arrays of n elements; checked against the full specification for 4 values of n (TemplateLemma)' % (9000 if thorough else 1100), st, summ)
+    st, summ = api['run_tlc_to_harness'](ctx, 'names', 'GenNames', cfg(constants={'Emit': 'TRUE', 'Prop': '"C01"'}), timeout=1500)
+    acc.add('GenNames: 31 member names that look like syntax ("x.y", "x[0]", "*", "a|b", "", "0", "let" ...) in 17 positions, each paired with its '
+            'piped spelling, on documents that also hold what a name split at dots or brackets would find', st, summ)
     return acc.result(RULE_PINNED, extra={'bounds': {'bfs_depth': depth, 'pool_documents': 15}})
 
 
@@ -179,6 +182,9 @@ def c17(ctx, api):
         if st['errors'] or st['rc'] != 0:
             raise api['Broken']('S6 model check failed: %s' % st['errors'][:3])
         acc.add('S6 (multi-select list = concatenation) on the model', st, None)
+    st, summ = api['run_tlc_to_harness'](ctx, 'names', 'GenNames', cfg(constants={'Emit': 'TRUE', 'Prop': '"C17"'}), timeout=1500)
+    acc.add('GenNames: 31 member names that look like syntax ("x.y", "x[0]", "*", "a|b", "", "0", "let" ...) in 17 positions, each paired with its '
+            'piped spelling, on documents that also hold what a name split at dots or brackets would find', st, summ)
     return acc.result(RULE_PINNED + '; a pair case is non-trivial when both sides have one common pinned outcome, '
                       'in which case the harness also demands that the two real results are equal',
                       extra={'schemata': ['S1 P sels = P | [*] sels', 'S2 x[*].e = map(&e,x)[*]', 'S4 a.b = a | b',
@@ -387,6 +393,9 @@ def c16(ctx, api):
     acc.add('GenSweep: 40 token families (raw / JSON / quoted literals with 1-4-byte characters and escapes, blanks, identifiers, ill-formed '
             'and unterminated literals) at EVERY repetition count 0..%d, i.e. every byte alignment across 512 .. 32768-byte boundaries; '
             'Search and Compile at each length (expected outcome a function of n, SweepLemma)' % (9000 if thorough else 1100), st, summ)
+    st, summ = api['run_tlc_to_harness'](ctx, 'names', 'GenNames', cfg(constants={'Emit': 'TRUE', 'Prop': '"C16"'}), timeout=1500)
+    acc.add('GenNames: 31 member names that look like syntax ("x.y", "x[0]", "*", "a|b", "", "0", "let" ...) in 17 positions, each paired with its '
+            'piped spelling, on documents that also hold what a name split at dots or brackets would find', st, summ)
     return acc.result(RULE_PINNED, extra={'model_checks': ['LiteralDecodesToItself', 'DecEncRaw', 'DecEncQuoted', 'DecEncJSON', 'OneToken', 'CountLemma']})
 
 
